@@ -94,6 +94,12 @@ let op_of s =
   | ["U"; i; f] -> [ODup (n i, n f)]                      (* duplicate-file-descriptor *)
   | ["T"; a; b] | ["R"; a; b] -> [ODupTo (n a, n b)]      (* duplicate-file-descriptor-to / renumber-file-descriptor *)
   | ["Z"; _; _] -> []                                     (* write through one port, read through another: no model state *)
+  | ["N"] -> []                                           (* embedding only: the history starts in a fresh context *)
+  | ["I"; i; _] -> [ODrop (n i)]                          (* R[i] := an immediate: Model.ref has one immediate, Imm; which one it was is
+                                                             remembered beside the model (imm_of_slot) for printing only *)
+  | ["S"; i; j] -> [OFileno (n i); OFileno (n j)]         (* socketpair: two fresh descriptors, two fileno objects *)
+  | ["PS"; i; f] | ["WS"; i; f] -> [OPortOn (n i, n f)]   (* port opened with the shutdown flag: sexp_finalize_port then also calls
+                                                             shutdown(2), which releases nothing: same ownership transitions *)
   | _ -> failwith ("bad op " ^ s)
 
 (* fingerprint of a value, same rule as the Scheme side (harness/c16_hist.scm): depth-limited *)
@@ -114,6 +120,21 @@ let rec fp (h : heap) (d : int) (r : Model.ref) : string =
             | _ -> "k" ^ hex_of_addr a))
 
 let distinct l = List.length (List.sort_uniq compare l)
+
+(* Immediates other than #f.  The model has ONE immediate (Imm): an immediate weak slot is never reset (ref_live Imm = true,
+   theorem immediate_key_never_broken), and the extras are reset exactly when the object is broken (one weak slot).  So what an
+   immediate slot of an ephemeron reads is determined by the model state plus which immediate was stored at creation:
+   key   = the original immediate (never reset);
+   value = the original immediate while brokenp = false, #f afterwards.
+   imm_of_slot: variable slot -> code (0 = #f / not an immediate); eph_imm: ephemeron address -> (key code, value code). *)
+let imm_of_slot : (int, int) Hashtbl.t = Hashtbl.create 16
+let eph_imm : (string, int * int) Hashtbl.t = Hashtbl.create 16
+(* after an operation: a slot that holds a heap object no longer holds an immediate; D,i stores #f *)
+let forget_overwritten (st : state) raw =
+  List.iteri (fun i r -> match r with Ptr _ -> Hashtbl.remove imm_of_slot i | Imm -> ()) st.slots;
+  match String.split_on_char ',' raw with
+  | ["D"; i] -> Hashtbl.remove imm_of_slot (int_of_string i)
+  | _ -> ()
 
 (* is the descriptor of the owner in slot i still open for it?  a fileno object: its open flag; a port on a fileno:
    port open and fileno open; a stream port: port open; "-" when the slot holds no owner *)
@@ -143,8 +164,9 @@ let observe (st : state) : string =
       match PositiveMap.find e h.objs with
       | None -> "e" ^ hex_of_addr e ^ "=GONE"
       | Some o ->
-        let key = match o.weak with [k] -> fp h 6 k | _ -> "?" in
-        let v = match o.extra with [v] -> fp h 6 v | _ -> "?" in
+        let (kc, vc) = try Hashtbl.find eph_imm (hex_of_addr e) with Not_found -> (0, 0) in
+        let key = match o.weak with [Imm] when kc > 0 -> "i" ^ string_of_int kc | [k] -> fp h 6 k | _ -> "?" in
+        let v = match o.extra with [Imm] when vc > 0 && not o.brokenp -> "i" ^ string_of_int vc | [v] -> fp h 6 v | _ -> "?" in
         "e" ^ hex_of_addr e ^ "=" ^ (if o.brokenp then "1" else "0") ^ "," ^ key ^ "," ^ v) st.obs in
   let opened = int_of_z st.nextfd in
   let closed = distinct (List.map hex_of_z st.oslog) in
@@ -154,6 +176,7 @@ let observe (st : state) : string =
 
 let hist nslots fuel ops =
   let st = ref (init (nat_of_int nslots) (nat_of_int_tr fuel)) in
+  Hashtbl.reset imm_of_slot; Hashtbl.reset eph_imm;
   let out = ref [] in
   let bad = ref None in
   (try
@@ -164,11 +187,18 @@ let hist nslots fuel ops =
               match owner_state !st x (List.nth_opt !st.slots x |> Option.value ~default:Imm) with
               | Some t -> String.sub t (String.length t - 1) 1 | None -> "-" in
             out := ("Z" ^ sl i ^ sl j) :: !out
+          | ["E"; _; kk; vv] ->
+            let code x = try Hashtbl.find imm_of_slot (int_of_string x) with Not_found -> 0 in
+            Hashtbl.replace eph_imm (hex_of_addr !st.next) (code kk, code vv)      (* the ephemeron gets the next fresh address *)
           | _ -> ());
          List.iter (fun o ->
              match step o !st with
              | None -> (match o with OGc -> out := "ERRFUEL" :: !out | _ -> bad := Some k); raise Exit
-             | Some s -> st := s; (match o with OGc -> out := observe s :: !out | _ -> ())) os) ops
+             | Some s -> st := s; (match o with OGc -> out := observe s :: !out | _ -> ())) os;
+         forget_overwritten !st raw;
+         (match String.split_on_char ',' raw with
+          | ["I"; i; c] -> Hashtbl.replace imm_of_slot (int_of_string i) (int_of_string c)
+          | _ -> ())) ops
    with Exit -> ());
   (match !bad with
    | Some k -> "DOMAIN " ^ string_of_int k        (* op number k works on the number of a fileno that is already closed *)
